@@ -485,6 +485,8 @@ pub fn run(args: &Args) {
         let mut want = base.db.clone();
         want.config = k3.config();
         want.header_attachments = Vec::new();
+        // earlier reads of damaged and cut variants of this file on this thread must not matter
+        if rng.chance(1, 2) { crate::prior::reads(&file, &base.creds.key(), rng); o.tags.push("after-earlier-reads".into()); }
         match catch(|| Database::open(&mut &file[..], base.creds.key())) {
             Err(p) => o.violation = Some(format!("open panicked: {}", p)),
             Ok(Err(e)) => o.violation = Some(format!("a conforming KDBX 3.1 file does not open: {}", open_error_class(&e))),
@@ -522,6 +524,7 @@ pub fn run(args: &Args) {
         // the group an id names: the only one, or (repeated ids) the last one in file order, as the model proves
         let owner = |gid: u32| c.groups.iter().rposition(|g| g.gid == gid).unwrap_or(usize::MAX);
         let want = expected_term(&c, &owner);
+        if rng.chance(1, 3) { crate::prior::reads(&file, &creds.key(), rng); o.tags.push("after-earlier-reads".into()); }
         let got = catch(|| Database::open(&mut &file[..], creds.key()));
         let got_term = match &got {
             Err(p) => format!("panic {}", p),
